@@ -87,6 +87,13 @@ def pairCsv? (s : String) : Option (List (Nat × Nat)) :=
       | _, _ => none
     | _ => none
 
+/-- `dp:cr:succ:total:cc:rw` per blobber allocation of a close -/
+def closeCsv? (s : String) : Option (List (Nat × Nat) × List (Nat × Nat × Nat)) :=
+  if s = "-" ∨ s = "" then some ([], []) else
+  (s.splitOn ",").foldr (fun w acc => match acc, (w.splitOn ":").mapM String.toNat? with
+    | some (ps, rs), some [dp, cr, succ, total, cc, _rw] => some ((dp, cr) :: ps, (succ, total, cc) :: rs)
+    | _, _ => none) (some ([], []))
+
 def caller? (s : String) : Option Caller :=
   match s.toList with
   | 'c' :: r => (idx? NC (String.ofList r)).map .client
@@ -186,16 +193,16 @@ def stepCore (s : State) (op obs : List String) : State × String :=
     | [verb, k, c], status :: rest =>
       match nat? k, caller? c with
       | some k, some c =>
-        let (X, per) : Nat × Option (List (Nat × Nat)) := match status, rest with
-          | "ok", [x, p] => ((nat? x).getD 0, pairCsv? p)
-          | _, _ => (0, some [])
+        let (X, per) : Nat × Option (List (Nat × Nat) × List (Nat × Nat × Nat)) := match status, rest with
+          | "ok", [x, p] => ((nat? x).getD 0, closeCsv? p)
+          | _, _ => (0, some ([], []))
         match per with
         | none => (s, "bad-op")
-        | some per =>
+        | some (per, rates) =>
           -- a failure the accounting model has no reason for (`other:<class>`, e.g. a float NaN in the pricing of the
           -- closing payments) is an observation like the failures of the other operations: nothing changes
           let otherFail := status = "fail" && (match rest with | r :: _ => r.startsWith "other:" | [] => false)
-          match ZChain.Storage.step s (.close (verb = "fin") k c X per) with
+          match ZChain.Storage.step s (.close (verb = "fin") k c X per rates) with
           | .ok s' => if otherFail then answer (" ".intercalate (status :: rest)) s
                       else answer (" ".intercalate ("ok" :: (if status = "ok" then rest else []))) s'
           | .error (.fail r) => answer ("fail " ++ r) s
